@@ -108,7 +108,7 @@ class Global(NbdimeConfigurable):
     ).tag(config=True)
 
 
-class Web(NbdimeConfigurable):
+class Web(Global):
 
     port = Integer(
         0,
@@ -165,7 +165,7 @@ class IgnoreConfig(Dict):
         return self.klass(value)
 
 
-class _Ignorables(NbdimeConfigurable):
+class _Ignorables(Global):
 
     sources = Bool(
         None,
